@@ -1222,22 +1222,36 @@ func validateProposedConfigEntryInServiceGraph(
 		sid := structs.NewServiceID(kindName.Name, &kindName.EnterpriseMeta)
 		checkChains[sid] = struct{}{}
 
-		iter, err := tx.Get(tableConfigEntries, indexLink, sid)
-		if err != nil {
-			return err
-		}
-		for raw := iter.Next(); raw != nil; raw = iter.Next() {
-			entry := raw.(structs.ConfigEntry)
-			switch entry.GetKind() {
-			case structs.ServiceRouter, structs.ServiceSplitter, structs.ServiceResolver:
-				svcID := structs.NewServiceID(entry.GetName(), entry.GetEnterpriseMeta())
-				checkChains[svcID] = struct{}{}
-			case structs.IngressGateway:
-				ingress, ok := entry.(*structs.IngressGatewayConfigEntry)
-				if !ok {
-					return fmt.Errorf("type %T is not an ingress gateway config entry", entry)
+		// A chain is affected when it refers to this service directly or
+		// through other chains (web redirects to api, api fails over to a
+		// subset of db: removing the subset from db breaks the chain of web),
+		// so the links are followed until no new chain turns up.
+		seenIngress := make(map[string]struct{})
+		for queue := []structs.ServiceID{sid}; len(queue) > 0; queue = queue[1:] {
+			iter, err := tx.Get(tableConfigEntries, indexLink, queue[0])
+			if err != nil {
+				return err
+			}
+			for raw := iter.Next(); raw != nil; raw = iter.Next() {
+				entry := raw.(structs.ConfigEntry)
+				switch entry.GetKind() {
+				case structs.ServiceRouter, structs.ServiceSplitter, structs.ServiceResolver:
+					svcID := structs.NewServiceID(entry.GetName(), entry.GetEnterpriseMeta())
+					if _, ok := checkChains[svcID]; !ok {
+						checkChains[svcID] = struct{}{}
+						queue = append(queue, svcID)
+					}
+				case structs.IngressGateway:
+					ingress, ok := entry.(*structs.IngressGatewayConfigEntry)
+					if !ok {
+						return fmt.Errorf("type %T is not an ingress gateway config entry", entry)
+					}
+					key := structs.NewServiceID(ingress.Name, &ingress.EnterpriseMeta).String()
+					if _, ok := seenIngress[key]; !ok {
+						seenIngress[key] = struct{}{}
+						checkIngress = append(checkIngress, ingress)
+					}
 				}
-				checkIngress = append(checkIngress, ingress)
 			}
 		}
 	}
